@@ -156,6 +156,42 @@ static void do_bloom(char* line) {
     for (int k = 0; k < BL_SLOTS; k++) bl_set(k, NULL);
 }
 
+/* bloomnull <hash hex> <bytes hex>: every entry point with a NULL filter (documented early returns).
+ * Prints one token per call; nothing may crash. */
+static void do_bloom_null(const char* hhex, const char* bhex) {
+    uint64_t h = strtoull(hhex, NULL, 16);
+    size_t n; void* base; uint8_t* p = h_unhex(bhex, &n, 1, &base);
+    int32_t i32 = (int32_t)h; int64_t i64 = (int64_t)h; float f; double d;
+    memcpy(&f, &i32, 4); memcpy(&d, &i64, 8);
+    carquet_bloom_filter_insert_hash(NULL, h);
+    carquet_bloom_filter_insert_i32(NULL, i32);
+    carquet_bloom_filter_insert_i64(NULL, i64);
+    carquet_bloom_filter_insert_float(NULL, f);
+    carquet_bloom_filter_insert_double(NULL, d);
+    carquet_bloom_filter_insert_bytes(NULL, p, n);
+    printf("OK ins qh=%d q32=%d q64=%d qf=%d qd=%d qb=%d",
+           (int)carquet_bloom_filter_check_hash(NULL, h), (int)carquet_bloom_filter_check_i32(NULL, i32),
+           (int)carquet_bloom_filter_check_i64(NULL, i64), (int)carquet_bloom_filter_check_float(NULL, f),
+           (int)carquet_bloom_filter_check_double(NULL, d), (int)carquet_bloom_filter_check_bytes(NULL, p, n));
+    printf(" data=%s size=%zu blocks=%zu", carquet_bloom_filter_data(NULL) ? "ptr" : "NULL",
+           carquet_bloom_filter_size(NULL), carquet_bloom_filter_num_blocks(NULL));
+    carquet_bloom_filter_t* g = carquet_bloom_filter_create(32);
+    carquet_bloom_filter_t* out = NULL;
+    uint8_t buf[32]; size_t wr = 0;
+    printf(" w=%s", carquet_bloom_filter_write(NULL, buf, 32, &wr) == CARQUET_OK ? "ok" : "err");
+    printf(" w2=%s", carquet_bloom_filter_write(g, NULL, 32, &wr) == CARQUET_OK ? "ok" : "err");
+    printf(" w3=%s", carquet_bloom_filter_write(g, buf, 32, NULL) == CARQUET_OK ? "ok" : "err");
+    printf(" r=%s", carquet_bloom_filter_read(NULL, buf, 32) == CARQUET_OK ? "ok" : "err");
+    printf(" r2=%s", carquet_bloom_filter_read(&out, NULL, 32) == CARQUET_OK ? "ok" : "err");
+    printf(" m=%s", carquet_bloom_filter_merge(NULL, g) == CARQUET_OK ? "ok" : "err");
+    printf(" m2=%s", carquet_bloom_filter_merge(g, NULL) == CARQUET_OK ? "ok" : "err");
+    /* the failed calls must not have touched the live filter */
+    printf(" fresh=%d\n", (int)carquet_bloom_filter_check_hash(g, h));
+    carquet_bloom_filter_destroy(g);
+    carquet_bloom_filter_destroy(NULL);
+    free(base);
+}
+
 int main(void) {
     while (h_readline()) {
         if (!strncmp(h_line, "bloom ", 6) || !strcmp(h_line, "bloom")) {   /* own tokeniser: scenarios have many ops */
@@ -217,6 +253,8 @@ int main(void) {
             uint32_t c = carquet_crc32_update(carquet_crc32(a, k), b, n - k);
             printf("OK %x\n", c);
             free(a); free(b); free(base);
+        } else if (!strcmp(h_tok[0], "bloomnull") && h_ntok == 3) {
+            do_bloom_null(h_tok[1], h_tok[2]);
         } else if (!strcmp(h_tok[0], "xxh") && h_ntok == 4) {
             /* xxh <align> <seed hex> <data hex>: carquet_xxhash64 and libxxhash's XXH64 on an exact-size buffer */
             size_t al = (size_t)atoi(h_tok[1]), n; void* base;
